@@ -143,6 +143,9 @@ fn svg_record(seed: u64, n: u64, target: usize, path: &str) -> Value {
             // a CR and the LF after it separated by sequences that print nothing (erase-line, a redundant reset, a hyperlink
             // terminator, a style change): still "a carriage return before a newline"
             3 => format!("ab\r\x1b[K\ncd\r\x1b[0m\nef\r\x1b]8;;\x1b\\\ngh\x1b[1m\r\x1b[K\x1b[K\nij{}", svg_text(&mut r, target / 2)),
+            // blanks whose decoration (underline / strikethrough / background) must keep the colour in force when only the
+            // foreground changes right behind them
+            6 if k % 3 == 0 => format!("\x1b[4;31m  \x1b[32mx\x1b[0m\n\x1b[9;35m\t\x1b[36my\x1b[0m \x1b[41m \x1b[44m \x1b[0m|\n{}", svg_text(&mut r, target / 2)),
             4 if k % 2 == 0 => format!("kl\r\x1b[31m\nmn\x1b[0m\r\x1b[4m\x1b[K\nop{}", svg_text(&mut r, target / 2)),
             // no escape sequence at all, but controls that are executed (BEL, BS, SOH, VT, SO): the text goes through the same
             // extraction whether or not a sequence is present
